@@ -398,8 +398,20 @@ def run_property(pid, tier, only=None):
     nshards = NPROC
     args = [(pid, tier, seed, i, nshards, only) for i in range(nshards)]
     ctx = mp.get_context("fork")
-    with ctx.Pool(nshards) as pool:
-        results = pool.map(worker, args, chunksize=1)
+    results = []
+    died = []
+    # ProcessPoolExecutor (unlike Pool.map) notices a worker that dies (e.g. a segfault in a C extension) instead of hanging
+    from concurrent.futures import ProcessPoolExecutor
+    from concurrent.futures.process import BrokenProcessPool
+    with ProcessPoolExecutor(max_workers=nshards, mp_context=ctx) as pool:
+        futures = [pool.submit(worker, a) for a in args]
+        for a, f in zip(args, futures):
+            try:
+                results.append(f.result())
+            except BrokenProcessPool:
+                died.append(a[3])
+    if died:
+        print("HARNESS-ERROR in %s: worker process(es) for shard(s) %s died (crash in a C extension?)" % (pid, died))
 
     merged = Stats()
     harness = []
@@ -475,6 +487,6 @@ def run_property(pid, tier, only=None):
         print("VIOLATION property=%s replay=%s" % (pid, os.path.relpath(path, VERIF)))
     if violations:
         return 1
-    if harness:
+    if harness or died:
         return 2
     return 0
